@@ -179,11 +179,13 @@ class Analysis:
         return cnt >= n['end']
 
     # ---- synchronous node contracts (C01 / C10) -------------------------
-    def check_sync_nodes(self):
+    def check_sync_nodes(self, only_ops=None):
         V = []
         for nid in self.order:
             n = self.spec[nid]
             if n['op'] in ('source', 'sink') or is_async_node(n):
+                continue
+            if only_ops is not None and n['op'] not in only_ops:
                 continue
             model = make_model(n)
             items = [(i.seq, i) for i in self.ins[nid]] + [(f.seq, f) for f in self.flushes[nid]]
